@@ -1106,6 +1106,15 @@ def _run_ctor(case, ck, info):
             _must_reject(ck, "ctor-rejects-bounds",
                          lambda: Uniform(_up(a), a),
                          "Uniform(nextafter(%r), %r)" % (a, a), acc)
+        # bounds / guesses that are not numbers
+        nan = float("nan")
+        for a, b, g in ((nan, 1.0, None), (0.0, nan, None), (nan, nan, None),
+                        (-INF, nan, None), (0.0, 1.0, nan),
+                        (np.float64("nan"), 2.0, None)):
+            n += 1
+            _must_reject(ck, "ctor-rejects-bounds",
+                         lambda: Uniform(a, b, g),
+                         "Uniform(%r, %r, guess=%r)" % (a, b, g), acc)
     elif case["which"] == "gaussian":
         for mu in GMU["thorough"]:
             for sd in [0, 0.0, -0.0, -1, -1e-300, -5e-324, -1e300, -INF]:
@@ -1113,6 +1122,15 @@ def _run_ctor(case, ck, info):
                 _must_reject(ck, "ctor-rejects-width",
                              lambda: Gaussian(mu, sd),
                              "Gaussian(%r, %r) (sd <= 0)" % (mu, sd), acc)
+            for sd in (float("nan"), INF):
+                n += 1
+                _must_reject(ck, "ctor-rejects-width",
+                             lambda: Gaussian(mu, sd),
+                             "Gaussian(%r, %r)" % (mu, sd), acc)
+        for mu in (float("nan"), INF, -INF):
+            n += 1
+            _must_reject(ck, "ctor-rejects-width", lambda: Gaussian(mu, 1.0),
+                         "Gaussian(%r, 1.0)" % (mu,), acc)
     else:
         for mu in GMU["thorough"]:
             for sd in GSD["thorough"]:
@@ -1131,6 +1149,13 @@ def _run_ctor(case, ck, info):
                                  lambda: BoundedGaussian(mu, sd, lo, hi),
                                  "BoundedGaussian(%r, %r, %r, %r) (%s)" %
                                  (mu, sd, lo, hi, why), acc)
+                nan = float("nan")
+                for lo, hi in ((nan, mu + sd), (mu - sd, nan), (nan, nan)):
+                    n += 1
+                    _must_reject(ck, "ctor-rejects-bounds",
+                                 lambda: BoundedGaussian(mu, sd, lo, hi),
+                                 "BoundedGaussian(%r, %r, %r, %r)" %
+                                 (mu, sd, lo, hi), acc)
                 for bsd in (0, -sd):
                     n += 1
                     _must_reject(ck, "ctor-rejects-width",
